@@ -242,5 +242,5 @@ def replay(path):
     verdicts, _ = core.validate("Trace_C10", evs, nchunks=1)
     for v in verdicts:
         print("REPLAY verdict:", v)
-    print("REPLAY events:", json.dumps(evs)[:3000])
+    print("REPLAY events:", len(evs))
     return 1 if verdicts else 0
